@@ -163,7 +163,9 @@ Definition set_est (x : est) (s : state) : state :=
 Definition terminate (s : state) : state :=
   match ent s with
   | None => s
-  | Some _ => set_unprot (unprot s + 1) (set_ent None s)
+  | Some _ =>
+    (* the signal channels are fields of the entry: nothing reads them once it is gone *)
+    set_sig_pause false (set_sig_upd false (set_sig_err None (set_unprot (unprot s + 1) (set_ent None s))))
   end.
 
 Definition errk_eqb (a b : errk) : bool :=
